@@ -141,6 +141,45 @@ type emitCase struct {
 	// LenDelta: the byte-length field of the response struct (CoilsByteLength / RegisterByteLen ...) is set to
 	// len(Data)+LenDelta: a hand-built, inconsistent struct. Whatever frame is emitted for it must still end with its own CRC.
 	LenDelta int `json:"len_delta,omitempty"`
+	// Sibling ("unit" | "addr" | "qty" | "value" | "code"): directly before the value of the case, a value that differs from it only
+	// in that field (by SiblingXor) is emitted - what a program talking to several similar devices does. What was emitted before
+	// must not matter.
+	Sibling    string `json:"sibling,omitempty"`
+	SiblingXor uint16 `json:"sibling_xor,omitempty"`
+}
+
+// siblingOf returns the value emitted first.
+func siblingOf(c emitCase) emitCase {
+	s := c
+	s.Sibling = ""
+	x := c.SiblingXor
+	switch c.Sibling {
+	case "unit":
+		s.Req.Unit, s.Resp.Unit = c.Req.Unit^uint8(x), c.Resp.Unit^uint8(x)
+	case "addr":
+		s.Req.Addr, s.Resp.Addr = c.Req.Addr^x, c.Resp.Addr^x
+	case "qty":
+		s.Req.Qty = c.Req.Qty ^ x
+	case "value":
+		s.Req.Value, s.Resp.Value = c.Req.Value^x, c.Resp.Value^x
+	case "code":
+		s.Resp.Code = c.Resp.Code ^ uint8(x)
+	}
+	return s
+}
+
+func genSibling(t *rapid.T, c *emitCase) {
+	if rapid.IntRange(0, 2).Draw(t, "with_sibling") != 0 {
+		return
+	}
+	c.Sibling = rapid.SampledFrom([]string{"unit", "unit", "addr", "qty", "value", "code"}).Draw(t, "sibling")
+	c.SiblingXor = uint16(1) << rapid.IntRange(0, 15).Draw(t, "sibling_bit")
+	if c.Sibling == "unit" || c.Sibling == "code" {
+		c.SiblingXor = uint16(1) << rapid.IntRange(0, 7).Draw(t, "sibling_bit8")
+		if rapid.IntRange(0, 3).Draw(t, "sibling_nibble") == 0 {
+			c.SiblingXor = uint16(rapid.SampledFrom([]int{0x10, 0xF0, 0x0F, 0xFF, 0x80}).Draw(t, "sibling_mask"))
+		}
+	}
 }
 
 func genResp(t *rapid.T, fc uint8) spec.Resp {
@@ -235,6 +274,12 @@ func emitted(c emitCase) ([]byte, string) {
 }
 
 func genEmit(t *rapid.T) emitCase {
+	c := genEmitPlain(t)
+	genSibling(t, &c)
+	return c
+}
+
+func genEmitPlain(t *rapid.T) emitCase {
 	kind := rapid.SampledFrom([]string{"request", "request", "response", "response", "exception", "parse-error"}).Draw(t, "kind")
 	fc := gen.FC(t)
 	switch kind {
@@ -276,6 +321,17 @@ func genEmit(t *rapid.T) emitCase {
 
 var chkEmit = harness.Define("crc-emission", genEmit,
 	func(c emitCase) harness.Result {
+		{
+			// first an unrelated value of the same kind: whatever an earlier case left in a one-entry memo of the library is gone, so
+			// that a failure of this case depends on this case alone (and its replay file reproduces it)
+			n := c
+			n.Sibling = ""
+			n.Req.Unit, n.Req.Addr, n.Resp.Unit, n.Resp.Addr, n.Resp.Code = c.Req.Unit^0xA5, c.Req.Addr^0x5A5A, c.Resp.Unit^0xA5, c.Resp.Addr^0x5A5A, c.Resp.Code^0x5A
+			_, _ = emitted(n)
+		}
+		if c.Sibling != "" {
+			_, _ = emitted(siblingOf(c))
+		}
 		frame, typ := emitted(c)
 		if frame == nil {
 			return harness.Result{Labels: []string{"constructor-rejected"}}
@@ -305,7 +361,11 @@ var chkEmit = harness.Define("crc-emission", genEmit,
 		if third, _ := emitted(c); !bytes.Equal(third, first) {
 			return harness.Fail("%s emitted %x; after the caller overwrote the slices it was given, emitting the same value again gives %x", typ, first, third)
 		}
-		return harness.Result{NonTrivial: n > 4, Labels: []string{"emit:" + c.Kind, fmt.Sprintf("emit-fc%d", c.Req.FC|c.Resp.FC)}}
+		labels := []string{"emit:" + c.Kind, fmt.Sprintf("emit-fc%d", c.Req.FC|c.Resp.FC)}
+		if c.Sibling != "" {
+			labels = append(labels, "after-sibling-differing-in:"+c.Sibling)
+		}
+		return harness.Result{NonTrivial: n > 4, Labels: labels}
 	})
 
 func TestEmission(t *testing.T) {
@@ -431,7 +491,7 @@ func genEnforce(t *rapid.T) enforceCase {
 	return enforceCase{Request: req, Body: body, Trailer: tr, Source: src}
 }
 
-var chkEnforce = harness.Define("crc-enforcement", genEnforce, runEnforce)
+var chkEnforce = harness.Define("crc-enforcement", genEnforce, runEnforce).Repeated(2)
 
 func TestEnforcement(t *testing.T) {
 	chkEnforce.Rapid(t, harness.Pick(20000, 500000))
